@@ -358,6 +358,7 @@ def main():
     chk.unit_in_child(F, 'mj_validateReferences', C, 'math', 'fp', post=coverage_of_validator)
     chk.unit_in_child(F, 'mj_sizeModel', C, 'math', 'fp')
     chk.unit_in_child(F, 'safeAddToBufferSize', C, 'math', 'fp')
+    chk.unit_in_child(F, 'mj_makeModel', C, 'math', 'fp', setup=io.makemodel_setup)
     save = chk.unit(F, 'mj_saveModel', C, 'math', 'fp', hooks=hooks)
     load = chk.unit(F, 'mj_loadModelBuffer', C, 'math', 'fp', hooks=hooks)
     if save is not None and load is not None:
@@ -379,7 +380,7 @@ def main():
         'round trip: memcpy copies bytes exactly, so an item read from the offset and with the length it was written has the written value (contents are not modelled)',
         'mj_deleteModel, mju_free, mj_version, mju_warning have no effect on the verified state',
     }
-    chk.out_of_reach += ['mj_makeModel body and mj_setPtrModel (placement of the arrays inside one raw buffer): assumed contract; their overflow-checked size accumulation safeAddToBufferSize IS under contract; a contract for mj_setPtrModel is written (contracts/io.py setptr_contract) but its obligations are not discharged within a usable budget',
+    chk.out_of_reach += ['mj_setPtrModel (placement of the arrays inside one raw buffer): the loader treats the arrays of a made model as separate objects of the X-macro lengths (assumed); mj_makeModel itself IS under contract for everything else the loader relies on (size checks, size fields = arguments, nnames_map, nbuffer range), and so is the overflow-checked accumulation safeAddToBufferSize; a contract for mj_setPtrModel is written (contracts/io.py setptr_contract) but its obligations are not discharged within a usable budget',
                          'the file-based mj_saveModel / mj_loadModel wrappers (resource providers, C++ VFS)',
                          'the signature member of mjModel is not stored in MJB files (documented); not part of the mirror']
     return chk.finish()
